@@ -154,7 +154,7 @@ theorem step_inv (types : Array SigType) (s s' : St) (op : Op) (hi : SpecInv s) 
   | split =>
     simp only [step] at h
     split at h
-    · cases h
+    · cases h; exact hi
     · cases h; exact ⟨hi.1, hi.2⟩
   | vcd id value realLe =>
     simp only [step] at h
